@@ -5,6 +5,9 @@
 //!     "known" = start header, own successful commits, successful reconciliation imports,
 //!     `latest_block_height()` replies (must-know) or a header delivered on the block stream
 //!     (may-know: envelope while racing, exact when nothing is in flight);
+//!  R1b a trigger-driven production is at (mock chain tip)+1, the tip taken when the task asked
+//!     for its leader state, whether or not the task queried `latest_block_height()` (only a
+//!     faulted reply excuses it); later arrivals are racing;
 //!  R2 timestamps never decrease along what the task itself committed/imported;
 //!  R3 each committed block was sealed by the signer port for exactly that block, after
 //!     production and before the commit;
@@ -96,6 +99,14 @@ struct St<'a> {
     foreign_since_anchor: bool,
     batch_failed: bool,
     last_vt: u64,
+    /// tip of the mock chain (every append is broadcast on the block stream)
+    chain_tip: u64,
+    /// reply of `latest_block_height()` in the current trigger round: "ok" | "fault"
+    round_db: Option<&'static str>,
+    /// (chain tip, db reply of the round) when the task last asked `leader_state`
+    ls_round: Option<(u64, Option<&'static str>)>,
+    /// next height the task believed in at the start of the current `run()` iteration
+    run_start_next: Option<u64>,
 }
 
 impl<'a> St<'a> {
@@ -231,6 +242,10 @@ pub fn judge(events: &[Value], cfg: &Cfg) -> Verdict {
         foreign_since_anchor: false,
         batch_failed: false,
         last_vt: 0,
+        chain_tip: cfg.init_h as u64,
+        round_db: None,
+        ls_round: None,
+        run_start_next: None,
     };
     let mut prev_main: String = String::new();
     let mut summary = Vec::new();
@@ -287,6 +302,7 @@ pub fn judge(events: &[Value], cfg: &Cfg) -> Verdict {
             "stream.push" => {
                 let h = u(e, "h");
                 st.stream_heights.insert(h);
+                st.chain_tip = st.chain_tip.max(h);
                 let ht = u(e, "time");
                 st.stream_times
                     .entry(h)
@@ -307,6 +323,11 @@ pub fn judge(events: &[Value], cfg: &Cfg) -> Verdict {
                 }
             }
             "db_height.ret" => {
+                st.round_db = Some(if s(e, "res") == "some" && !b(e, "stale") {
+                    "ok"
+                } else {
+                    "fault"
+                });
                 match s(e, "res") {
                     "some" => {
                         st.must_h = st.must_h.max(u(e, "h"));
@@ -320,6 +341,9 @@ pub fn judge(events: &[Value], cfg: &Cfg) -> Verdict {
                     _ => st.stat("db_height.err"),
                 };
             }
+            "leader_state.call" => {
+                st.ls_round = Some((st.chain_tip, st.round_db.take()));
+            }
             "leader_state.ret" => {
                 st.batch_failed = false;
                 st.stat(&format!("leader_state.{}", s(e, "st")));
@@ -331,7 +355,12 @@ pub fn judge(events: &[Value], cfg: &Cfg) -> Verdict {
                     st.stat("signer.unavailable");
                 }
             }
-            "predef.get" => st.stat(&format!("predef.get.{}", s(e, "res"))),
+            "predef.get" => {
+                // asked once per `run()` iteration with the height the task believes is next
+                st.run_start_next = Some(u(e, "h"));
+                st.round_db = None;
+                st.stat(&format!("predef.get.{}", s(e, "res")));
+            }
             "manual.call" => {
                 let start = e.get("start").and_then(|x| x.as_u64());
                 st.outstanding_manual.insert(u(e, "id"), start);
@@ -389,6 +418,34 @@ pub fn judge(events: &[Value], cfg: &Cfg) -> Verdict {
                     st.stat("after_failure.next_attempt_same_height");
                 }
                 st.check_height("produce", h, t);
+                if k == Kind::Trigger
+                    && let Some((tip_then, db)) = st.ls_round
+                {
+                    // R1b: a trigger-driven production must be at (chain tip)+1, the tip taken
+                    // when the task asked for its leader state; blocks arriving after that are
+                    // racing. The task has the importer port; whether it asked does not matter,
+                    // only an importer reply that withheld the tip excuses it.
+                    if db == Some("fault") {
+                        st.stat("tip_check.excluded_tip_query_faulted");
+                    } else {
+                        st.stat("tip_check.judged");
+                        if st.run_start_next.is_some_and(|n| tip_then + 1 > n) {
+                            st.stat("tip_check.tip_ahead_of_run_start_height");
+                        }
+                        if h < tip_then + 1 {
+                            st.v.push((
+                                "height_not_next behind_chain_tip at=produce".into(),
+                                format!(
+                                    "t={t}: trigger production asked for height {h} but the chain tip was already \
+                                     {tip_then} when the task asked for its leader state (next height believed at \
+                                     the start of this run iteration: {:?}; latest_block_height in this round: {})",
+                                    st.run_start_next,
+                                    db.unwrap_or("not queried")
+                                ),
+                            ));
+                        }
+                    }
+                }
                 st.check_time("produce", k, h, time, t);
                 if k != Kind::Predefined {
                     st.check_time_leak(time, t);
@@ -677,6 +734,35 @@ pub fn perturb(events: &mut Vec<Value>, which: u64) -> bool {
             }
             None => false,
         },
+        // a foreign block reaches the chain just before the task asks for its leader state,
+        // yet the following trigger production stays at the old height
+        6 => {
+            let mut i = 0;
+            while i < events.len() {
+                if s(&events[i], "kind") == "leader_state.call" {
+                    // does this round end in a trigger production?
+                    let prod = events[i + 1..]
+                        .iter()
+                        .find(|e| matches!(s(e, "kind"), "leader_state.ret" | "produce.call"));
+                    let leader = prod.is_some_and(|e| s(e, "st") == "leader");
+                    let next_prod = events[i + 1..].iter().find(|e| {
+                        matches!(s(e, "kind"), "produce.call" | "release.call" | "leader_state.call")
+                    });
+                    if leader && next_prod.is_some_and(|e| s(e, "kind") == "produce.call") {
+                        let h = u(next_prod.unwrap(), "h");
+                        let t = u(&events[i], "t");
+                        let vt = u(&events[i], "vt");
+                        events.insert(
+                            i,
+                            json!({"t": t, "vt": vt, "kind": "stream.push", "h": h, "time": 1, "src": "net", "cause": "net"}),
+                        );
+                        return true;
+                    }
+                }
+                i += 1;
+            }
+            false
+        }
         _ => false,
     }
 }
